@@ -69,4 +69,28 @@ theorem cigar_counts (rev : Bool) (p : Pr) (ps : List Pr) (hv : ValidMatching re
   generalize ((p :: ps).getLast (by simp)) = l at *
   cases rev <;> simp at i3 ⊢ <;> omega
 
+/-- total of the run counts carrying operation `x` -/
+def runTotal (x : Hit) (rs : List (Nat × Hit)) : Nat := ((rs.filter (fun r => r.2 = x)).map (·.1)).sum
+
+theorem count_expandRuns (x : Hit) (rs : List (Nat × Hit)) : (expandRuns rs).count x = runTotal x rs := by
+  induction rs with
+  | nil => simp [expandRuns, runTotal]
+  | cons r rest ih =>
+    obtain ⟨n, h⟩ := r
+    unfold runTotal at ih ⊢
+    rw [expandRuns, List.count_append, List.count_replicate, ih]
+    by_cases e : h = x
+    · subst e; simp
+    · have e' : ¬ (h == x) = true := by simpa using e
+      simp [e, e']
+
+theorem cigar_run_totals (rev : Bool) (p : Pr) (ps : List Pr) (hv : ValidMatching rev (sitePairs (p :: ps)))
+    (hs : List Hit) (rs : List (Nat × Hit)) (h : hitEnums (p :: ps) = .ok hs) (ha : aggregate hs = .ok rs) :
+    runTotal Hit.M rs = (p :: ps).length ∧
+    ((runTotal Hit.M rs + runTotal Hit.D rs : Nat) : Int) = ((p :: ps).getLast (by simp)).r.site - p.r.site + 1 ∧
+    ((runTotal Hit.M rs + runTotal Hit.I rs : Nat) : Int) = (((p :: ps).getLast (by simp)).q.site - p.q.site).natAbs + 1 := by
+  have e := expand_aggregate hs rs ha
+  simp only [← count_expandRuns, e]
+  exact cigar_counts rev p ps hv hs h
+
 end Coma.Proofs
